@@ -41,8 +41,9 @@ func newCWorld() *cWorld {
 	w := &cWorld{}
 	w.places = world.NewStore(&world.Spec{EntityType: "places", BasePath: []string{"root"}, Fields: []world.Field{{Name: "label", Kind: world.KString}}})
 	w.items = world.NewStore(&world.Spec{EntityType: "items", BasePath: []string{"root"}, Fields: []world.Field{
-		{Name: "name", Kind: world.KString}, {Name: "roles", Kind: world.KStringList}, {Name: "ver", Kind: world.KInt64P}}})
+		{Name: "name", Kind: world.KString}, {Name: "roles", Kind: world.KStringList}, {Name: "ver", Kind: world.KInt64P}, {Name: "tags", Kind: world.KMap}}})
 	w.places.AddScalarSymbols()
+	w.items.AddMapSymbol("tags", ast.NodeTypeAnyType, "tags")
 	w.items.AddIdSymbol("id", ast.NodeTypeString)
 	w.nameIdx = w.items.AddUniqueIndex(w.items.AddSymbol("name", ast.NodeTypeString))
 	w.items.AddSymbol("ver", ast.NodeTypeInt64)
@@ -81,7 +82,7 @@ func newCWorld() *cWorld {
 }
 
 func (w *cWorld) item(id, name string, roles []string, ver int64) *world.Rec {
-	return world.NewRec("items", id).With("name", name).With("roles", roles).With("ver", ver)
+	return world.NewRec("items", id).With("name", name).With("roles", roles).With("ver", ver).With("tags", map[string]interface{}{"k": "a", "j": int64(5)})
 }
 
 // buildBase creates the base database file (pre-grown so that later small commits never remap).
@@ -440,6 +441,17 @@ func helperBodies(w *cWorld) map[string]func() string {
 			s2 := w.items.GetSymbol("places.label")
 			return fmt.Sprintf("%v/%v/%v", s != nil && s.IsSet(), s2 != nil, w.items.GetSymbol("nosuch") == nil)
 		},
+		// two DIFFERENT elements of the same map symbol: element symbols are created on demand from one shared map symbol
+		"GetSymbol(map element k)+Parse": func() string {
+			s := w.items.GetSymbol("tags.k")
+			q, err := ast.Parse(w.items, `tags.k = "a"`)
+			return fmt.Sprintf("%v/%v/%v", s != nil && s.GetName() == "tags.k", q, err)
+		},
+		"GetSymbol(map element j)+Parse": func() string {
+			s := w.items.GetSymbol("tags.j")
+			q, err := ast.Parse(w.items, `tags.j = 5`)
+			return fmt.Sprintf("%v/%v/%v", s != nil && s.GetName() == "tags.j", q, err)
+		},
 		"IsReferenceExistsError": func() string {
 			return fmt.Sprintf("%v/%v/%v", boltz.IsReferenceExistsError(refErr), boltz.IsReferenceExistsError(wrapped), boltz.IsReferenceExistsError(dupErr))
 		},
@@ -536,6 +548,33 @@ func RaceBodies() int {
 		})
 		return t
 	}
+	bodies["reader(map element k query)"] = func() string {
+		var t string
+		_ = db.View(func(tx *bbolt.Tx) error {
+			ids, _, err := w.items.QueryIds(tx, `tags.k = "a"`)
+			t = fmt.Sprint(ids, err)
+			return nil
+		})
+		return t
+	}
+	bodies["reader(map element j query)"] = func() string {
+		var t string
+		_ = db.View(func(tx *bbolt.Tx) error {
+			ids, _, err := w.items.QueryIds(tx, `tags.j = 5 and tags.k != "zz"`)
+			t = fmt.Sprint(ids, err)
+			return nil
+		})
+		return t
+	}
+	// bodies whose answer no writer body changes: their free-running result must equal the sequential one
+	stable := map[string]string{}
+	for n, f := range bodies {
+		if !strings.HasPrefix(n, "reader(View") && !strings.HasPrefix(n, "reader(QueryIds") {
+			stable[n] = f()
+		}
+	}
+	var wrongMu sync.Mutex
+	wrong := map[string]string{}
 	bodies["writer(Update)"] = func() string {
 		verMu.Lock()
 		ver++
@@ -563,7 +602,12 @@ func RaceBodies() int {
 					go func() {
 						defer wg.Done()
 						for k := 0; k < 5; k++ {
-							bodies[n]()
+							got := bodies[n]()
+							if want, ok := stable[n]; ok && got != want {
+								wrongMu.Lock()
+								wrong[n] = fmt.Sprintf("free-running next to %q/%q: %q, sequentially %q", a, b, got, want)
+								wrongMu.Unlock()
+							}
 						}
 					}()
 				}
@@ -572,6 +616,12 @@ func RaceBodies() int {
 		}
 	}
 	fmt.Printf("race-pass: %d bodies, %d unordered pairs, 20 repetitions x 3 goroutines x 5 calls each\n", len(names), pairs)
+	for n, m := range wrong {
+		fmt.Printf("WRONG-RESULT body=%s %s\n", n, m)
+	}
+	if len(wrong) > 0 {
+		return 3
+	}
 	return 0
 }
 
@@ -595,7 +645,15 @@ func c18RacePass(rep *report.Report, thorough bool) {
 			rep.Set("race_pass", l)
 		}
 	}
-	if err != nil && races == 0 {
+	wrongResults := 0
+	for _, l := range strings.Split(text, "\n") {
+		if strings.HasPrefix(l, "WRONG-RESULT ") {
+			wrongResults++
+			body := strings.SplitN(strings.TrimPrefix(l, "WRONG-RESULT body="), " free-running", 2)[0]
+			rep.Violation("C18|free-running-wrong-result|"+body, l, nil)
+		}
+	}
+	if err != nil && races == 0 && wrongResults == 0 {
 		rep.Violation("C18|race-pass-failed", "the -race pass failed: "+err.Error()+"\n"+tailStr(text, 2000), nil)
 		return
 	}
